@@ -614,3 +614,29 @@ def _corner_connectors(repo, ob, failure):
                 if bad:
                     return {"input": doc, "observed": bad, "expected": "rectilinear polyline between the named locations, perpendicular and outward at both ends"}
     return None
+
+
+@generator("C11.shorthand.")
+def _shorthand_equiv(repo, ob, failure):
+    """every shorthand is exactly equivalent to its longhand pair, on every shape that takes the pair"""
+    import re as _re
+    pairs = [("rect", 'xy="1 2" wh="20 10" rxy="3"', 'xy="1 2" wh="20 10" rx="3" ry="3"'),
+             ("rect", 'xy="1 2" wh="20 10" rxy="3 4"', 'xy="1 2" wh="20 10" rx="3" ry="4"'),
+             ("circle", 'cxy="25 40" rxy="15"', 'cxy="25 40" rx="15" ry="15"'),
+             ("ellipse", 'cxy="25 40" rxy="15 10"', 'cxy="25 40" rx="15" ry="10"'),
+             ("rect", 'xy="1,2" wh="20,10"', 'x="1" y="2" width="20" height="10"'),
+             ("rect", 'cxy="11 7" wh="20 10"', 'cx="11" cy="7" width="20" height="10"'),
+             ("rect", 'xy1="1 2" xy2="21 12"', 'x1="1" y1="2" x2="21" y2="12"'),
+             ("rect", 'xy="1 2" wh="18 8" dwh="2"', 'xy="1 2" wh="18 8" dw="2" dh="2"'),
+             ("rect", 'xy="1 2" wh="20 10" dxy="3 4"', 'xy="1 2" wh="20 10" dx="3" dy="4"'),
+             ("line", 'xy1="1 2" xy2="21 12"', 'x1="1" y1="2" x2="21" y2="12"')]
+    def attrs(doc, tag):
+        r = run_svgdx(repo, doc)
+        m = _re.search(r'<%s id="p"([^>]*)>' % tag, r["out"]) if r["rc"] == 0 else None
+        return sorted(_re.findall(r'\b([a-z0-9]+)="([^"]*)"', m.group(1))) if m else ("rc %s" % r["rc"])
+    for tag, short, long_ in pairs:
+        a, b = attrs('<svg><%s id="p" %s/></svg>' % (tag, short), tag), attrs('<svg><%s id="p" %s/></svg>' % (tag, long_), tag)
+        if a != b:
+            return {"input": '<svg><%s id="p" %s/></svg>' % (tag, short), "input_longhand": '<svg><%s id="p" %s/></svg>' % (tag, long_),
+                    "observed": "shorthand gives %r, longhand gives %r" % (a, b), "expected": "identical output geometry"}
+    return None
